@@ -8,6 +8,8 @@ mkdir -p "$here/.scratch"
 cp /repo/Cargo.lock "$here/ws/replay/Cargo.lock"
 (cd "$here/ws/replay" && CARGO_TARGET_DIR="$here/.scratch/replay-target" cargo build --offline --quiet 2>"$here/.scratch/build.log" || { cat "$here/.scratch/build.log"; exit 1; })
 (cd "$here/ws/replay" && CARGO_TARGET_DIR="$here/.scratch/replay-target-small" cargo build --offline --quiet --features small 2>"$here/.scratch/build.log" || { cat "$here/.scratch/build.log"; exit 1; })
+(cd "$here/ws/replay" && CARGO_TARGET_DIR="$here/.scratch/replay-target-chrono" cargo build --offline --quiet --features chrono 2>"$here/.scratch/build.log" || { cat "$here/.scratch/build.log"; exit 1; })
 (cd "$here/ws" && CARGO_TARGET_DIR="$here/.scratch/ws-target" cargo +nightly build --offline --quiet -p mpd_client 2>"$here/.scratch/build.log" || { cat "$here/.scratch/build.log"; exit 1; })
+(cd "$here/ws" && CARGO_TARGET_DIR="$here/.scratch/ws-target" cargo +nightly build --offline --quiet -p mpd_client --features chrono 2>"$here/.scratch/build.log" || { cat "$here/.scratch/build.log"; exit 1; })
 python3-vt -c "import z3; print('z3', z3.get_version_string())"
 echo setup ok
